@@ -63,6 +63,7 @@ def main(argv=None):
     ap.add_argument("--jobs", type=int, default=int(os.environ.get("VERIF_JOBS", "16")))
     ap.add_argument("--no-evidence", action="store_true")
     ap.add_argument("-v", action="store_true")
+    ap.add_argument("--dump", help="write every obligation result to this JSON file (debugging)")
     args = ap.parse_args(argv)
     seed = int(os.environ.get("VERIF_SEED", "0") or 0)
     pid = args.prop
@@ -145,6 +146,9 @@ def main(argv=None):
 
     for key, what in known_hits.items():
         print(f"KNOWN-FINDING: property={pid} {what} [{key}]")
+
+    if args.dump:
+        json.dump(results, open(args.dump, "w"), indent=1, default=str)
 
     # ------------------------------------------------------------- evidence
     wall = time.time() - t0
